@@ -1,6 +1,8 @@
 # C12 - fracture and slice partition a polygon without changing the region.
 import random
 
+import gds_codec
+import genlib
 import geom
 import script
 import vfw
@@ -8,6 +10,7 @@ from script import Case, fl, hx
 
 N = {'quick': 2400, 'thorough': 50000}
 PRECS = [1e-3, 1.0, 0.5, 1e-2, 0.25]
+WRITER_LIMITS = [0, 1, 2, 3, 4, 5, 6, 8, 17, 199, 8190]
 
 
 def make_case(i):
@@ -52,6 +55,37 @@ def make_case(i):
     cuts.sort()
     c.op('slice', 'p0', axis, fl(1.0 / prec), len(cuts), *[fl(v * prec) for v in cuts])
     c.meta = {'G': G, 'pts': pts, 'prec': prec, 'maxp': maxp, 'axis': axis, 'cuts': cuts, 'seed': sd, 'frac': frac}
+    # the GDSII writer applies the same partition to every polygon (and path outline) above its vertex limit
+    wr = random.Random(sd + 17)
+    wmaxp = wr.choice(WRITER_LIMITS)
+    if prec == 1e-3 and wr.random() < 0.5:
+        c.op('lib', '4c', '1e-06', '1e-09')
+    else:
+        c.op('lib', '4c', '1', fl(prec))
+    c.op('cell', '41', 'l0')
+    c.op('poly', 'c0', 3, 4, len(pts), *[fl(v) for p in pts for v in p])
+    path = None
+    if wr.random() < 0.5:
+        nseg = wr.choice([2, 3, 5, 9, 20, 45])
+        L = wr.randrange(24, 50)
+        x, y = wr.randrange(-50, 50), wr.randrange(2000, 2100)       # far above the polygon
+        p0 = (x, y)
+        zz = []
+        for k in range(nseg):
+            x += L + wr.randrange(0, 10)
+            y = p0[1] + (wr.randrange(0, 25) if k % 2 == 0 else -wr.randrange(0, 25))
+            zz.append((x, y))
+        path = {'p0': p0, 'pts': zz, 'width': wr.choice([6, 8, 10]), 'join': wr.choice([0, 0, 1, 2, 3]), 'end': wr.choice([0, 0, 1, 2])}
+        fp = {'elements': [{'width': path['width'] * prec, 'offset': 0.0, 'tag': (7, 1), 'join': path['join'], 'end': path['end'],
+                            'ext': (0.0, 0.0), 'bend': 0, 'bend_radius': 0.0}],
+              'p0': (p0[0] * prec, p0[1] * prec), 'tol': 0.05 * prec, 'simple': False, 'scale_width': True,
+              'calls': [('segment', [(px * prec, py * prec) for px, py in zz])], 'rep': None, 'props': []}
+        fh = genlib.emit_flexpath(c, 'c0', fp)
+        c.op('to_polygons', fh)
+    c.op('write_gds', 'l0', 'w.gds', wmaxp, '2021 3 4 5 6 7')
+    c.op('filehex', 'w.gds')
+    c.meta['wmaxp'] = wmaxp
+    c.meta['path'] = path
     return c
 
 
@@ -215,9 +249,113 @@ def judge(chk, c, evs):
         if ok is False:
             break
     chk.cov('slice_points_tested', tested)
+    judge_writer(chk, c, evs, rp, O, rnd)
     chk.cov('cases_judged')
     if (maxp >= 5 and len(O) > maxp) or crossing:
         chk.fp(c.id)
+
+
+def _partition(chk, rp, key, what, O, pieces, rnd, guard2=4.0, want=150):
+    """pieces (integer polygons) cover exactly the region of O: twice-area sums and exact winding numbers at sampled half-grid points"""
+    a_o = abs(geom.area2(O))
+    a_p = sum(abs(geom.area2(p)) for p in pieces)
+    slack = 2 * sum(geom.perimeter(p) for p in pieces) + 2 * geom.perimeter(O) + 16
+    if abs(a_o - a_p) > slack:
+        chk.violation(key + '/area', '%s: the boundaries cover %d/2, the original %d/2 (slack %d/2)' % (what, a_p, a_o, slack), rp)
+        return 0
+    x0, y0, x1, y1 = geom.bbox([[O]])
+    O2 = [(2 * x, 2 * y) for x, y in O]
+    P2 = [[(2 * x, 2 * y) for x, y in p] for p in pieces]
+    tested = 0
+    for t in range(4 * want):
+        if tested >= want:
+            break
+        if t % 2 == 0:
+            vx, vy = rnd.choice(O)
+            px, py = 2 * vx + rnd.randrange(-15, 16) | 1, 2 * vy + rnd.randrange(-15, 16) | 1
+        else:
+            px, py = rnd.randrange(2 * x0 - 5, 2 * x1 + 6) | 1, rnd.randrange(2 * y0 - 5, 2 * y1 + 6) | 1
+        if geom.min_dist2([[O2]], px, py) < 4 * guard2:
+            continue
+        w = geom.winding(O2, px, py)
+        if w is None:
+            continue
+        cnt = 0
+        for p in P2:
+            wp = geom.winding(p, px, py)
+            if wp is None:
+                cnt = None
+                break
+            if wp != 0:
+                cnt += 1
+        if cnt is None:
+            continue
+        tested += 1
+        if (w != 0) != (cnt > 0):
+            chk.violation(key + '/membership', '%s: point (%g,%g) grid units is %s the original but covered by %d boundaries of the file' % (
+                what, px / 2, py / 2, 'inside' if w else 'outside', cnt), rp)
+            break
+        if cnt > 1:
+            chk.violation(key + '/overlap', '%s: point (%g,%g) grid units is covered by %d boundaries of the file' % (what, px / 2, py / 2, cnt), rp)
+            break
+    return tested
+
+
+def judge_writer(chk, c, evs, rp, O, rnd):
+    """write_gds(max_points): the boundaries in the file for one polygon / one path outline are its partition (limit > 4) or the polygon
+    itself (limit 0..4), read back from the bytes with the independent decoder"""
+    m = c.meta
+    wmaxp = m['wmaxp']
+    rp = dict(rp)
+    rp['meta'] = dict(rp['meta'], writer_max_points=wmaxp)
+    ws = [e for e in evs if e['op'] == 'write_gds' and e.get('k') != 'call']
+    fh = [e for e in evs if e['op'] == 'filehex']
+    if not ws or not fh:
+        chk.harness_error('%s: writer events missing' % c.id)
+        return
+    if ws[0]['err'] != 0:
+        chk.violation('C12/writer/error-code', 'write_gds(max_points=%d) returned %d' % (wmaxp, ws[0]['err']), rp)
+        return
+    try:
+        g = gds_codec.decode(bytes.fromhex(fh[0]['hex']))
+    except gds_codec.GdsError as ex:
+        chk.violation('C12/writer/decode', 'file written with max_points=%d is rejected by the independent decoder: %s' % (wmaxp, ex), rp)
+        return
+    els = [e for cc in g['cells'] for e in cc['elements']]
+    other = [e for e in els if e['kind'] != 'boundary' or (e['layer'], e['datatype']) not in ((3, 4), (7, 1))]
+    if other:
+        chk.violation('C12/writer/foreign-element', 'the file holds a %s on (%s,%s) nobody created' % (other[0]['kind'], other[0].get('layer'), other[0].get('datatype')), rp)
+        return
+    groups = [('polygon', O, [e['xy'][:-1] for e in els if (e['layer'], e['datatype']) == (3, 4)], 0)]
+    if m['path'] is not None:
+        tp = [e for e in evs if e['op'] == 'to_polygons' and e.get('k') != 'call']
+        if not tp or len(tp[0]['polys']) != 1:
+            chk.harness_error('%s: path outline missing' % c.id)
+            return
+        xs = tp[0]['polys'][0]['pts']
+        sc = 1.0 / m['prec']
+        outl = [(int(round(xs[k] * sc)), int(round(xs[k + 1] * sc))) for k in range(0, len(xs), 2)]
+        groups.append(('path outline', outl, [e['xy'][:-1] for e in els if (e['layer'], e['datatype']) == (7, 1)], 1))
+    for what, orig, pieces, slack1 in groups:
+        n = len(orig)
+        if wmaxp < 5 or n <= wmaxp:
+            # must be written as it is
+            ok = len(pieces) == 1 and len(pieces[0]) == n and all(abs(a[0] - b[0]) <= slack1 and abs(a[1] - b[1]) <= slack1 for a, b in zip(pieces[0], orig))
+            if not ok:
+                chk.violation('C12/writer/unsplit', '%s of %d vertices written with max_points=%d: the file holds %d boundaries (%s vertices) instead of the %s itself' % (
+                    what, n, wmaxp, len(pieces), [len(p) for p in pieces][:6], what), rp)
+                return
+            chk.cov('writer_unsplit_%s' % what.split()[0])
+            continue
+        over = [len(p) for p in pieces if len(p) > wmaxp]
+        if over:
+            chk.violation('C12/writer/too-many-vertices', '%s: boundary with %d vertices in a file written with max_points=%d' % (what, max(over), wmaxp), rp)
+            return
+        # (a sliver thinner than the grid may legitimately vanish: the area and membership tests decide, not the count)
+        t = _partition(chk, rp, 'C12/writer', '%s, max_points=%d' % (what, wmaxp), orig, pieces, rnd)
+        chk.cov('writer_points_tested', t)
+        chk.cov('writer_split_%s' % what.split()[0])
+        chk.cov('writer_boundaries', len(pieces))
 
 
 def work(rec, b, indices):
